@@ -89,6 +89,32 @@ CHECKS["C07"] = {
     ],
 }
 
+ROOT = "./"
+CHECKS["C01"] = {
+    "engine": "simnet",
+    "level": "exploration",
+    "technique": "property-based testing (rapid) of the real lookup over a simulated network under synctest virtual time; history-invariant oracle over result, lookup events and the simulated peers' log",
+    "level_text": "Generated adversarial networks (faults, liars, latencies that fix the arrival order, filters) are executed against the real GetClosestPeers inside a virtual-time bubble; "
+                  "the oracle recomputes learned/failed sets from the simulation log with the documented ingress rules and checks result exactness and event/log agreement. Exploration: scenarios are sampled.",
+    "level_note": "The transport is a model (fake host and message sender honouring context cancellation, 10 s read and 60 s dial timeouts); peer ids are arbitrary multihashes; "
+                  "the routing table library (go-libp2p-kbucket) is trusted for the seed selection that is observed, not predicted.",
+    "parts": [
+        {"part": "adversarial", "pkg": ROOT, "test": "TestVerif_C01_Adversarial", "quick": 2000, "thorough": 40000},
+    ],
+}
+CHECKS["C02"] = {
+    "engine": "simnet",
+    "level": "exploration",
+    "technique": "property-based testing (rapid) over consistent Kademlia networks built by construction, with a brute-force global nearest-K oracle and a termination/contact invariant over the simulation log",
+    "level_text": "Networks satisfying the k-bucket completeness assumption are constructed (not filtered) and the real lookup must return the globally nearest peer first (exact K nearest when "
+                  "everyone knows everyone); the adversarial scenarios of C01 are reused for the termination/contact clauses. Exploration: networks and arrival orders are sampled.",
+    "level_note": "Same simulated transport as C01; 'has received answers from the beta nearest' is judged from processed-answer events cross-checked against the simulation log.",
+    "parts": [
+        {"part": "convergence", "pkg": ROOT, "test": "TestVerif_C02_Convergence", "quick": 800, "thorough": 15000},
+        {"part": "contact", "pkg": ROOT, "test": "TestVerif_C02_Contact", "quick": 1500, "thorough": 30000},
+    ],
+}
+
 MANIFEST_HEAD = {
     "version": 1,
     "setup_cmd": "bin/check --setup",
